@@ -69,7 +69,7 @@ func c35(x *Ctx) {
 	// checkField decides the guarded-by obligation for every access of one field
 	checkField := func(nt *types.Named, strct, fld, mutex, origin string) {
 		acc := eng.FieldAccesses(funcs, structFieldPred(nt, fld))
-		seen := map[string]bool{}
+		seen, heldCache, bad := map[string]bool{}, map[string]bool{}, map[string]bool{}
 		for _, a := range acc {
 			c.Examined++
 			fn := eng.Root(a.Fn)
@@ -78,8 +78,8 @@ func c35(x *Ctx) {
 			if a.Write {
 				mode = "write"
 			}
-			if seen[key+mode] {
-				continue
+			if seen[key+mode] && heldCache[key+mode] {
+				// further accesses with the same key are still decided; only a failing one adds a report
 			}
 			held := heldAt(a.Instr, nt, mutex, a.Write)
 			why := ""
@@ -102,11 +102,17 @@ func c35(x *Ctx) {
 				}
 			}
 			if held {
-				seen[key+mode] = true
-				c.Hold(r1, key+":"+mode, x.Pos(a.Instr), why+origin)
+				if !seen[key+mode] {
+					seen[key+mode] = true
+					heldCache[key+mode] = true
+					c.Hold(r1, key+":"+mode, x.Pos(a.Instr), why+origin)
+				}
 				continue
 			}
-			seen[key+mode] = true
+			if bad[key+mode] {
+				continue // one report per function and mode
+			}
+			bad[key+mode] = true
 			need := mutex
 			if a.Write {
 				need += " (write lock)"
@@ -383,8 +389,40 @@ func isFreshBase(base ssa.Value) bool {
 			}
 		}
 		return true
+	case *ssa.Extract:
+		// the result of a constructor: a function of this repository all of whose returned values are fresh allocations
+		if cl, ok := y.Tuple.(*ssa.Call); ok {
+			return returnsFresh(cl.Call.StaticCallee(), y.Index)
+		}
+	case *ssa.Call:
+		return returnsFresh(y.Call.StaticCallee(), 0)
+	case *ssa.Parameter:
+		return false
 	}
 	return false
+}
+
+// returnsFresh: every value f returns as result idx is a new allocation made in f (or nil).
+func returnsFresh(f *ssa.Function, idx int) bool {
+	if f == nil || f.Blocks == nil {
+		return false
+	}
+	vals := returnedValues(f, idx)
+	if len(vals) == 0 {
+		return false
+	}
+	for _, v := range vals {
+		switch y := v.(type) {
+		case *ssa.Alloc:
+		case *ssa.Const:
+			if !y.IsNil() {
+				return false
+			}
+		default:
+			return false
+		}
+	}
+	return true
 }
 
 func isSyncType(t types.Type) bool {
